@@ -575,13 +575,16 @@ def check_C11(res, tier, seed):
              "C01.SolutionHolds": "C11.FalseDefinitive", "C03.Complete": "C11.FalseDefinitive",
              "C03.IsSolution": "C11.FalseDefinitive", "C03.EndKind": "C11.FalseDefinitive",
              "C10.NoPanic": "C11.Panic", "C10.NoHang": "C11.Hang", "C10.BackAtRoot": "C11.NotUsableAgain",
-             "C04.CallbackIsSolution": "C11.BestIsSolution"}
+             "C04.CallbackIsSolution": "C11.BestIsSolution", "C03.NoRepeat": "C11.FalseDefinitive",
+             # answers for the model plus the clauses the library added itself during the interrupted
+             # call (see F2): "can be asked again and then gives the correct answer" does not hold
+             "C10.StaleInternalClauses": "C11.StaleAfterInterrupt"}
 
     def rec(d):
         build_harness()
         trace = os.path.join(d, "t.ndjson")
         scn = os.path.join(d, "t.scn.ndjson")
-        sh([PVH, "interrupt", "--seed", str(seed), "--tier", tier, "--count", str(n(tier, 30, 300)),
+        sh([PVH, "interrupt", "--seed", str(seed), "--tier", tier, "--count", str(n(tier, 60, 400)),
             "--maxk", str(n(tier, 30, 120)), "--out", trace, "--scn", scn], timeout=3000)
         return trace, scn
     out, counts = tv_part(res, [], 0, seed, tier, "interrupt", adopt=adopt, recorder=rec,
